@@ -1343,6 +1343,17 @@ class Interp:
             if m == "truncate" and isinstance(k_, int) and not isinstance(k_, bool):
                 del recv[k_:]
                 return ()
+            if m == "drain" and isinstance(k_, tuple) and len(k_) == 4 and k_[0] in ("range", "slice"):
+                lo = 0 if k_[1] is None else k_[1]
+                hi = len(recv) if k_[2] is None else (k_[2] + 1 if k_[3] else k_[2])
+                if isinstance(lo, int) and isinstance(hi, int) and 0 <= lo <= hi <= len(recv):
+                    out_ = recv[lo:hi]
+                    del recv[lo:hi]
+                    return out_
+            if m == "split_off" and isinstance(k_, int) and not isinstance(k_, bool) and 0 <= k_ <= len(recv):
+                out_ = recv[k_:]
+                del recv[k_:]
+                return out_
         if isinstance(recv, list) and len(n["args"]) == 1 and m in ("take", "skip", "step_by"):
             k_ = self.ev(n["args"][0], env)
             if isinstance(k_, int) and not isinstance(k_, bool):
